@@ -358,10 +358,24 @@ impl wire::Decode for Message {
             Ok(MessageType::Ping) => {
                 let ponglen = u16::decode(reader)?;
                 let zeroes = ZeroBytes::decode(reader)?;
+                // Nb. A ping with more padding than this can't be encoded.
+                if zeroes.len() > Ping::MAX_PING_ZEROES as usize {
+                    return Err(wire::Error::InvalidSize {
+                        expected: Ping::MAX_PING_ZEROES as usize,
+                        actual: zeroes.len(),
+                    });
+                }
                 Ok(Self::Ping(Ping { ponglen, zeroes }))
             }
             Ok(MessageType::Pong) => {
                 let zeroes = ZeroBytes::decode(reader)?;
+                // Nb. A pong with more padding than this can't be encoded.
+                if zeroes.len() > Ping::MAX_PONG_ZEROES as usize {
+                    return Err(wire::Error::InvalidSize {
+                        expected: Ping::MAX_PONG_ZEROES as usize,
+                        actual: zeroes.len(),
+                    });
+                }
                 Ok(Self::Pong { zeroes })
             }
             Err(other) => Err(wire::Error::UnknownMessageType(other)),
